@@ -87,6 +87,10 @@ def cells(tier, seed):
     for name in ("gaussian", "fixed", "fixed_learn"):
         for pb, xb in pairs:
             out.append({"what": "likelihood", "name": name, "pb": list(pb), "xb": list(xb)})
+    for name in QUAD_LIKS:
+        # (20 = the default number of quadrature nodes: a batch dimension of that size must not be confused with the node axis)
+        for pb, xb in pairs + [((20,), ()), ((), (20,))]:
+            out.append({"what": "likelihood", "name": name, "pb": list(pb), "xb": list(xb)})
     for fam in ("exact", "matern_ard", "sumprod", "linearmean", "fixednoise_learn"):
         for pb, xb in pairs:
             if tier == "quick" and fam not in ("exact", "sumprod") and len(pb) + len(xb) > 2:
@@ -223,10 +227,15 @@ def run_mean(cell, pb, xb, g, fails, seed):
     return len(elements(bb))
 
 
+QUAD_LIKS = ("laplace", "studentt", "beta")   # one-dimensional likelihoods integrated by Gauss-Hermite quadrature
+
+
 def make_lik(name, bs, noise):
     L = gpytorch.likelihoods
     if name == "gaussian":
         return L.GaussianLikelihood(batch_shape=torch.Size(bs))
+    if name in QUAD_LIKS:
+        return {"laplace": L.LaplaceLikelihood, "studentt": L.StudentTLikelihood, "beta": L.BetaLikelihood}[name](batch_shape=torch.Size(bs))
     return L.FixedNoiseGaussianLikelihood(noise=noise, learn_additional_noise=(name == "fixed_learn"), batch_shape=torch.Size(bs))
 
 
@@ -239,11 +248,16 @@ def run_likelihood(cell, pb, xb, g, fails, seed):
         distinct_params_(lik, g)
         mean, C = util.randn(g, *xb, n), util.spd(g, *xb, n)
         y = util.randn(g, *bb, n)
+        quad = cell["name"] in QUAD_LIKS
+        if cell["name"] == "beta":
+            y = 0.1 + 0.8 * util.rand(g, *bb, n)
         with torch.no_grad():
             d = MultivariateNormal(mean, C)
-            out = lik(d)
-            cov = out.covariance_matrix.expand(*bb, n, n)
-            elp = lik.expected_log_prob(y, d).expand(*bb, n)
+            if not quad:
+                out = lik(d)
+                cov = out.covariance_matrix.expand(*bb, n, n)
+            got = lik.expected_log_prob(y, d)
+            elp = got.expand(*bb, n)
             lm = lik.log_marginal(y, d).expand(*bb, n)
         lead = len(bb) - len(pb)
         for b in elements(bb):
@@ -252,7 +266,8 @@ def run_likelihood(cell, pb, xb, g, fails, seed):
             slice_into(lik, lb, pb, bb, b)
             db = MultivariateNormal(mean.expand(*bb, n)[b], C.expand(*bb, n, n)[b])
             with torch.no_grad():
-                fails.check_close("likelihood-marginal", cov[b], lb(db).covariance_matrix, 1e-12, 1e-12, f"element {b}")
+                if not quad:
+                    fails.check_close("likelihood-marginal", cov[b], lb(db).covariance_matrix, 1e-12, 1e-12, f"element {b}")
                 fails.check_close("likelihood-elp", elp[b], lb.expected_log_prob(y[b], db), 1e-10, 1e-10, f"element {b}")
                 fails.check_close("likelihood-log_marginal", lm[b], lb.log_marginal(y[b], db), 1e-10, 1e-10, f"element {b}")
     return len(elements(bb)) * 3
